@@ -628,8 +628,6 @@ func main() {
 	wconfig.Cloki = cfg
 	wctrl.Registry = fakeSvcRegistry{}
 
-	out.Put(muxProbe())
-
 	configs := []Config{
 		{Name: "all+cors/A", Login: "admin", Pass: "s3cr:et", Cors: true, Origin: "https://grafana.example", Mode: "all"},
 		{Name: "all/B", Login: "user", Pass: "pass", Cors: false, Mode: "all"},
@@ -643,6 +641,7 @@ func main() {
 		runReplay(*replay, &asm, configs, cfg, out)
 		return
 	}
+	out.Put(muxProbe())
 
 	for ci, c := range configs {
 		env, unknown := envOf(&asm, c)
